@@ -124,29 +124,32 @@ def _free_consts(exprs):
 
 
 def small_shapes(exprs):
-    """constraint sets that make the containers of the pre-state empty / one-element"""
+    """constraint sets that make the containers of the pre-state small: every dictionary has at most one key (the
+    solver chooses whether it has one), every list the same length 0..2"""
     consts = _free_consts(exprs)
-    empty, single = [], []
+    flex = []
+    n0 = z3.Int('small_len')
+
+    def is_arr(x):
+        return x.kind() == z3.Z3_ARRAY_SORT
     for name, c in consts.items():
         srt = c.sort()
-        if not (name.startswith('H0:') or name.startswith('Hl:') or name.startswith('H:') or name.startswith('hv_')):
+        if not (name.startswith('H0:') or name.startswith('Hl:') or name.startswith('H:') or name.startswith('Ha:') or name.startswith('hv_')):
             continue
-        def is_arr(x):
-            return x.kind() == z3.Z3_ARRAY_SORT
         if is_arr(srt) and srt.domain() == z3.IntSort() and is_arr(srt.range()) and srt.range().range() == z3.BoolSort():
             ks = srt.range().domain()
-            empty.append(c == z3.K(z3.IntSort(), z3.K(ks, False)))
             k0 = z3.Const('small_k!' + name, ks)
-            single.append(c == z3.K(z3.IntSort(), z3.Store(z3.K(ks, False), k0, True)))
+            b0 = z3.Bool('small_has!' + name)
+            flex.append(c == z3.K(z3.IntSort(), z3.Store(z3.K(ks, False), k0, b0)))
         elif is_arr(srt) and srt.range() == z3.BoolSort() and name.startswith('hv_'):
-            empty.append(c == z3.K(srt.domain(), False))
-            single.append(c == z3.K(srt.domain(), False))
+            k0 = z3.Const('small_k!' + name, srt.domain())
+            b0 = z3.Bool('small_has!' + name)
+            flex.append(c == z3.Store(z3.K(srt.domain(), False), k0, b0))
         elif name.endswith(':ll') or ':ll!' in name:
-            empty.append(c == z3.K(z3.IntSort(), z3.IntVal(0)))
-            single.append(c == z3.K(z3.IntSort(), z3.IntVal(1)))
-    if not empty:
+            flex.append(c == z3.K(z3.IntSort(), n0))
+    if not flex:
         return []
-    return [empty, single]
+    return [flex + [n0 >= 0, n0 <= 2]]
 
 
 def _kind(c):
@@ -264,7 +267,7 @@ def _prove1(assumptions, goal, timeout):
     full = assumptions + light + other_defs + short + [neg]
     shapes = small_shapes(full) or [[]]
     for shape in ([[]] if inputs else []) + shapes:
-        s2, r2 = _solve(full + shape, min(timeout, 4000))
+        s2, r2 = _solve(full + shape, min(timeout, 8000))
         if r2 == z3.sat:
             return 'refuted', backend + '+small-prestate', s2.model()
     if os.environ.get('PYVC_DEBUG'):
